@@ -18,6 +18,7 @@ pub enum RAct {
     Data(usize, bool),
     Eof,
     Err(u8),
+    Panic,
 }
 #[derive(Clone, Debug, PartialEq)]
 pub enum WAct {
@@ -60,6 +61,7 @@ impl Srw {
                 RAct::Data(k, true) => format!("s{}", k),
                 RAct::Eof => "e".into(),
                 RAct::Err(k) => format!("x{}", k),
+                RAct::Panic => "p".into(),
             })
             .collect();
         let wa: Vec<String> = self
@@ -89,6 +91,7 @@ impl Srw {
                 b's' => RAct::Data(t[1..].parse().ok()?, true),
                 b'e' => RAct::Eof,
                 b'x' => RAct::Err(t[1..].parse().ok()?),
+                b'p' => RAct::Panic,
                 _ => return None,
             });
         }
@@ -138,6 +141,10 @@ impl Read for Srw {
                 }
                 RAct::Eof => Ok(0),
                 RAct::Err(k) => Err(std::io::Error::new(num_kind(k), "scripted")),
+                RAct::Panic => {
+                    self.log.borrow_mut().push(format!("R{}:{}:err99", self.id, dest.len()));
+                    panic!("scripted reader panic")
+                }
             };
             self.log.borrow_mut().push(format!("R{}:{}:{}", self.id, dest.len(), res_str(&r)));
             r
@@ -390,7 +397,7 @@ fn seqs<T: Clone>(alpha: &[T], maxlen: usize) -> Vec<Vec<T>> {
     out
 }
 
-fn mk(id: usize, data: &[u8], racts: Vec<RAct>) -> Srw {
+pub fn mk(id: usize, data: &[u8], racts: Vec<RAct>) -> Srw {
     Srw { id, data: data.to_vec(), pos: 0, racts, ri: 0, wacts: vec![], wi: 0, facts: vec![], fi: 0, log: Log::default() }
 }
 
